@@ -224,7 +224,40 @@ def dates_workload(rng):
             "data": data, "kwargs": {"return_only_persistent": False}, "env": {}, "output_folder": rng.random() < 0.3, "meta": {"dates": nd}}
 
 
+def analytic_workload(rng):
+    """One or two analytic invocations with a total ordering (partition by Id_1, order by Id_2 [asc|desc]) over a small
+    input: every function x window x direction combination is equally likely, so that none is a rare event."""
+    comps = [{"name": "Id_1", "type": "Integer", "role": "Identifier", "nullable": False},
+             {"name": "Id_2", "type": "Integer", "role": "Identifier", "nullable": False},
+             {"name": "Me_1", "type": "Number", "role": "Measure", "nullable": True}]
+    cols = ["Id_1", "Id_2", "Me_1"]
+    n1, n2 = rng.choice([1, 2]), rng.choice([2, 3, 4])
+    rows = [[a, b, None if rng.random() < 0.1 else float(rng.choice([1, 2, 3, 5, 10, 20, 50]))] for a in range(1, n1 + 1) for b in range(1, n2 + 1)]
+    rng.shuffle(rows)
+    windows = ["", " data points between unbounded preceding and unbounded following", " data points between 1 preceding and 1 following",
+               " data points between unbounded preceding and current data point", " data points between current data point and unbounded following",
+               " data points between 2 preceding and 1 preceding", " data points between 1 following and 2 following"]
+    stmts = []
+    for i in range(rng.choice([1, 2])):
+        fn = rng.choice(["sum", "avg", "min", "max", "count", "first_value", "last_value", "lag", "lead", "rank"])
+        d = rng.choice(["", " asc", " desc"])
+        if fn in ("lag", "lead"):
+            stmts.append("R_%d <- %s(DS_1, %d over (partition by Id_1 order by Id_2%s));" % (i, fn, rng.choice([1, 2]), d))
+        elif fn == "rank":
+            stmts.append("R_%d <- DS_1[calc Me_r := rank(over (partition by Id_1 order by Id_2%s))];" % (i, d))
+        else:
+            stmts.append("R_%d <- %s(DS_1 over (partition by Id_1 order by Id_2%s%s));" % (i, fn, d, rng.choice(windows)))
+    kind = rng.choice(["df", "csv_text", "parquet_df"])
+    data = {"DS_1": {"kind": "csv_text", "text": gen.csv_text(cols, rows)} if kind == "csv_text" else {"kind": kind, "columns": cols, "rows": rows}}
+    return {"api": "run", "script": "\n".join(stmts) + "\n", "structures": {"datasets": [{"name": "DS_1", "DataStructure": comps}]},
+            "data": data, "kwargs": {"return_only_persistent": False}, "env": {}, "output_folder": False, "meta": {"analytic_family": True}}
+
+
 def _make_op(src):
+    if src[0] == "analytic":
+        o = analytic_workload(random.Random(src[1]))
+        o["sid"] = "analytic:%d" % src[1]
+        return o
     if src[0] == "dates":
         o = dates_workload(random.Random(src[1]))
         o["sid"] = "dates:%d" % src[1]
@@ -323,10 +356,11 @@ def run(ctx):
     items += [("corpus", e) for e in rng.sample(cps, min(n_corpus, len(cps)))]
     rng.shuffle(items)
     ts = [("tseries", rng.randrange(1 << 30)) for _ in range(60 if quick else 2500)]
-    ts = [x for pair in zip(ts, [("dates", rng.randrange(1 << 30)) for _ in range(len(ts))]) for x in pair]
-    items = [("sample", rng.randrange(1 << 30)) for _ in range(6 if quick else 200)] + ts[:16] + items
-    for i, x in enumerate(ts[16:]):
-        items.insert(min(len(items), 24 + i * 5), x)
+    ts = [x for tri in zip(ts, [("dates", rng.randrange(1 << 30)) for _ in range(len(ts))],
+                           [("analytic", rng.randrange(1 << 30)) for _ in range(len(ts))]) for x in tri]
+    items = [("sample", rng.randrange(1 << 30)) for _ in range(6 if quick else 200)] + ts[:30] + items
+    for i, x in enumerate(ts[30:]):
+        items.insert(min(len(items), 40 + i * 4), x)
     size = 4
     heavy = [it for it in items if it[0] == "sample"]
     light = [it for it in items if it[0] != "sample"]
